@@ -11,14 +11,17 @@ import (
 	"fmt"
 	"io"
 	"net"
+	"strings"
 	"sync"
 	"sync/atomic"
 	"time"
 
 	"github.com/quic-go/qpack"
+	"pgregory.net/rapid"
 
 	quic "github.com/refraction-networking/uquic"
 	"github.com/refraction-networking/uquic/verif/sim"
+	"github.com/refraction-networking/uquic/verif/vf"
 )
 
 // RFC 9114 error codes (section 8.1), written out here so that the oracle does not import them from the code under test.
@@ -430,6 +433,168 @@ func connCode(err error) (uint64, bool) {
 	return 0, false
 }
 
+// ---- extra unidirectional streams of a CONFORMING raw peer ----
+//
+// RFC 9204 4.2: each endpoint MAY open one QPACK encoder stream (type 0x02) and one QPACK decoder stream (0x03); every
+// stack with a dynamic table (all browsers) opens both, in any order relative to the control stream and to its first
+// request. RFC 9114 6.2.3: streams of unknown / reserved (0x1f*N+0x21) types may be opened at any time and MUST NOT be
+// treated as an error. None of this may change the outcome of any exchange, so the dimension is orthogonal to every
+// scenario: the case carries the plan, the raw client / raw server below execute it. Duplicates of the control, encoder
+// or decoder stream are NOT generated here (they are the negative scenarios control2 / qenc2 / qdec2 of h3-raw-peer).
+type UniOpen struct {
+	T    uint64 `json:"t"`             // 0x2 QPACK encoder | 0x3 QPACK decoder | unknown / grease type
+	When string `json:"when"`          // pre: before the control stream | post: right after SETTINGS | late: after the first request
+	N    int    `json:"n,omitempty"`   // unknown types: payload bytes; encoder stream: number of "Set Dynamic Table Capacity 0" instructions (0x20)
+	End  string `json:"end,omitempty"` // unknown types: fin | reset | open. QPACK streams are critical and stay open (RFC 9204 4.2).
+	Ms   int    `json:"ms,omitempty"`  // late, raw client: virtual milliseconds after the handshake (the raw server opens them when the first request arrives)
+}
+
+var extraUni atomic.Pointer[[]UniOpen]
+
+func setExtraUni(p []UniOpen) {
+	if len(p) == 0 {
+		extraUni.Store(nil)
+		return
+	}
+	extraUni.Store(&p)
+}
+
+func extraUniPlan() []UniOpen {
+	if p := extraUni.Load(); p != nil {
+		return *p
+	}
+	return nil
+}
+
+// extraUniClass names the combination for the class counters.
+func extraUniClass(p []UniOpen) string {
+	var enc, dec, unk bool
+	for _, o := range p {
+		switch o.T {
+		case stQEnc:
+			enc = true
+		case stQDec:
+			dec = true
+		default:
+			unk = true
+		}
+	}
+	s := "none"
+	switch {
+	case enc && dec:
+		s = "qpack-both"
+	case enc:
+		s = "qpack-encoder"
+	case dec:
+		s = "qpack-decoder"
+	}
+	if unk {
+		if s == "none" {
+			return "unknown-only"
+		}
+		s += "+unknown"
+	}
+	return s
+}
+
+func describeExtraUni(p []UniOpen) string {
+	if len(p) == 0 {
+		return "no extra unidirectional streams"
+	}
+	var sb strings.Builder
+	sb.WriteString("extra unidirectional streams of the raw peer:")
+	for _, o := range p {
+		fmt.Fprintf(&sb, " %#x@%s", o.T, o.When)
+	}
+	return sb.String()
+}
+
+// noteExtraUni adds the plan to the text of a verdict (the signature is unchanged).
+func noteExtraUni(v *vf.Verdict, p []UniOpen) {
+	if v != nil && len(p) > 0 {
+		v.Detail += " [" + describeExtraUni(p) + " — valid per RFC 9204 4.2 / RFC 9114 6.2.3]"
+	}
+}
+
+// genExtraUni draws the plan: in about half of the cases none; otherwise a QPACK encoder stream, a decoder stream, both
+// (the browser behaviour), unknown / grease types or a mix, in a generated order, each at a generated moment.
+func genExtraUni(t *rapid.T) []UniOpen {
+	kind := rapid.SampledFrom([]string{"none", "none", "none", "none", "qenc", "qdec", "both", "both", "both", "both+unknown", "unknown"}).Draw(t, "xuni")
+	var types []uint64
+	grease := func() uint64 {
+		return rapid.SampledFrom([]uint64{0x21, 0x21 + 0x1f, 0x21 + 0x1f*1000, 0x21 + 0x1f*148764065110560899, 0x4, 0x1f, 0x40, 0x3fff, 0x4000, 1<<62 - 1}).Draw(t, "xutype")
+	}
+	switch kind {
+	case "none":
+		return nil
+	case "qenc":
+		types = []uint64{stQEnc}
+	case "qdec":
+		types = []uint64{stQDec}
+	case "both":
+		types = []uint64{stQEnc, stQDec}
+	case "both+unknown":
+		types = []uint64{stQEnc, stQDec, grease()}
+	case "unknown":
+		types = []uint64{grease()}
+		if rapid.Bool().Draw(t, "xutwo") {
+			types = append(types, grease())
+		}
+	}
+	if len(types) > 1 {
+		types = rapid.Permutation(types).Draw(t, "xuorder")
+	}
+	var plan []UniOpen
+	for _, ty := range types {
+		o := UniOpen{T: ty, When: rapid.SampledFrom([]string{"pre", "post", "late"}).Draw(t, "xuwhen")}
+		switch ty {
+		case stQEnc:
+			o.N = rapid.SampledFrom([]int{0, 0, 1, 3}).Draw(t, "xun")
+		case stQDec:
+		default:
+			o.N = rapid.OneOf(rapid.Just(0), rapid.IntRange(1, 100)).Draw(t, "xun")
+			o.End = rapid.SampledFrom([]string{"fin", "reset", "open"}).Draw(t, "xuend")
+		}
+		if o.When == "late" {
+			o.Ms = rapid.SampledFrom([]int{1, 3, 10, 50, 150}).Draw(t, "xums")
+		}
+		plan = append(plan, o)
+	}
+	return plan
+}
+
+// openExtraUni opens the streams of the plan that belong to the given moment, in plan order.
+func openExtraUni(open func() (*quic.SendStream, error), when string, only func(UniOpen) bool) {
+	for _, o := range extraUniPlan() {
+		if o.When != when || (only != nil && !only(o)) {
+			continue
+		}
+		str, err := open()
+		if err != nil {
+			return // connection gone (scenario closed it): nothing to add
+		}
+		b := appendVarint(nil, o.T)
+		switch o.T {
+		case stQEnc:
+			for i := 0; i < o.N; i++ {
+				b = append(b, 0x20) // RFC 9204 4.3.1 Set Dynamic Table Capacity, capacity 0 (<= the advertised maximum 0)
+			}
+		case stQDec:
+		default:
+			b = append(b, pattern(uint64(o.T), 7, o.N)...)
+		}
+		if _, err := str.Write(b); err != nil {
+			continue // an unknown stream may be refused with STOP_SENDING at any time
+		}
+		switch o.End {
+		case "fin":
+			str.Close()
+		case "reset":
+			str.CancelWrite(quic.StreamErrorCode(h3NoError))
+		}
+	}
+}
+
 // ---- raw client ----
 
 type rawClient struct {
@@ -462,10 +627,24 @@ func dialRawClient(ctx context.Context, w *sim.World, pc net.PacketConn, idle ti
 	c.conn = conn
 	c.uniClosed.Add(1)
 	go c.acceptUni()
+	openExtraUni(conn.OpenUniStream, "pre", nil)
 	if withControl {
 		if err := c.openControl(rawSettingsFrame()); err != nil {
 			return c, err
 		}
+	}
+	openExtraUni(conn.OpenUniStream, "post", nil)
+	// "late": the callers send their first request right after the dial; these streams appear Ms later
+	for _, o := range extraUniPlan() {
+		if o.When != "late" {
+			continue
+		}
+		c.uniClosed.Add(1)
+		go func() {
+			defer c.uniClosed.Done()
+			time.Sleep(time.Duration(o.Ms) * time.Millisecond)
+			openExtraUni(conn.OpenUniStream, "late", func(x UniOpen) bool { return x == o })
+		}()
 	}
 	return c, nil
 }
@@ -611,11 +790,13 @@ func (sc *rawServerConn) openControl(first []byte) error {
 }
 
 func (s *rawServer) serveConn(sc *rawServerConn) {
+	openExtraUni(sc.conn.OpenUniStream, "pre", nil)
 	if s.onConn != nil {
 		s.onConn(sc)
 	} else {
 		sc.openControl(rawSettingsFrame())
 	}
+	openExtraUni(sc.conn.OpenUniStream, "post", nil)
 	s.wg.Add(1)
 	go func() {
 		defer s.wg.Done()
@@ -650,6 +831,9 @@ func (s *rawServer) serveConn(sc *rawServerConn) {
 		str, err := sc.conn.AcceptStream(context.Background())
 		if err != nil {
 			return
+		}
+		if i == 0 {
+			openExtraUni(sc.conn.OpenUniStream, "late", nil)
 		}
 		s.wg.Add(1)
 		go func() {
